@@ -73,6 +73,11 @@ func (watchStream) Generate(rng *rand.Rand, tier string, emit func(Case)) {
 			}
 		}
 	}
+	// a Spec file appears while the cache is being created over a large directory (the scan takes a while):
+	// whatever the scan missed, the watch must deliver
+	for _, frac := range []int{20, 50, 80} {
+		emit(Case{"op": "bigdir", "files": 1200, "percent": frac})
+	}
 	// several configured directories: operations are tagged with the directory they act on ("op@i")
 	multiFixed := [][]string{
 		{"moveIn@1"}, {"writeInPlace@0", "writeInPlace@1", "rewrite@0"},
@@ -330,6 +335,37 @@ func (watchStream) Execute(c Case) {
 			evs = []any{}
 		}
 		obs["events"] = evs
+	case "bigdir":
+		_ = os.MkdirAll(d, 0o755)
+		n := kindIdx(c["files"])
+		for i := 0; i < n; i++ {
+			_ = os.WriteFile(filepath.Join(d, fmt.Sprintf("f%04d.json", i)), specBytesOf(fmt.Sprintf("vendor%d.com/class", i), "big", 1), 0o644)
+		}
+		// how long does a scan of this directory take here?
+		t0 := time.Now()
+		probe, _ := cdi.NewCache(cdi.WithSpecDirs(d), cdi.WithAutoRefresh(false))
+		scan := time.Since(t0)
+		_ = probe
+		done := make(chan *cdi.Cache, 1)
+		go func() {
+			cch, _ := cdi.NewCache(cdi.WithSpecDirs(d), cdi.WithAutoRefresh(true))
+			done <- cch
+		}()
+		time.Sleep(scan * time.Duration(kindIdx(c["percent"])) / 100)
+		_ = os.WriteFile(filepath.Join(outside, "late.json"), specBytesOf("late.com/class", "late", 1), 0o644)
+		_ = os.Rename(filepath.Join(outside, "late.json"), filepath.Join(d, "late.json"))
+		cache := <-done
+		defer func() { _ = cache.Configure(cdi.WithAutoRefresh(false)) }()
+		fresh, _ := cdi.NewCache(cdi.WithSpecDirs(d), cdi.WithAutoRefresh(false))
+		want := len(fresh.ListDevices())
+		converged := false
+		for deadline := time.Now().Add(8 * time.Second); time.Now().Before(deadline); time.Sleep(30 * time.Millisecond) {
+			if len(cache.ListDevices()) == want && cache.GetDevice("late.com/class=dev0") != nil {
+				converged = true
+				break
+			}
+		}
+		obs["converged"], obs["scanms"] = converged, scan.Milliseconds()
 	case "history":
 		nd := kindIdx(c["ndirs"])
 		dirs := []string{d}
